@@ -117,7 +117,7 @@ func checkDelivery(k *Kernel, cov *Coverage, prop string) *Violation {
 			// the drawn request breaks a declared validation rule: the documented outcome is
 			// a 400 validation error and no dispatch (details are C10's business)
 			if c.Err == nil || len(c.Seen) != 0 {
-				return &Violation{Class: "rule-not-enforced", Signature: sig("rule-not-enforced", ""),
+				return &Violation{Class: "rule-not-enforced", Signature: prop + "|rule-not-enforced|" + pair + "|ct=" + ct + "|in=" + annType(rpc.In),
 					Detail: fmt.Sprintf("op %d %s: request %s violates %v but outcome was err=%v dispatched=%d", c.Op.ID, c.Op.RPC, jsonOf(c.Req), ruleErr, c.Err, len(c.Seen))}
 			}
 			cov.Tuple(k.W.Name, c.Op.RPC, pair, "ct="+ct, "rule-rejected")
@@ -307,8 +307,15 @@ func checkWireHeaders(k *Kernel, c *CallState, prop, pair string) *Violation {
 	want := map[string]string{}
 	if c.Op.ClientIdx < len(k.Plan.Clients) {
 		for _, o := range k.Plan.Clients[c.Op.ClientIdx] {
-			if o.Kind == "header" || o.Kind == "helper" {
+			switch o.Kind {
+			case "header":
 				want[http.CanonicalHeaderKey(o.Key)] = o.Value
+			case "helper":
+				// a typed client-level helper exists only on the client of the service that
+				// declares the header at service level
+				if serviceDeclares(k.W, c.Op.RPC, o.Key) {
+					want[http.CanonicalHeaderKey(o.Key)] = o.Value
+				}
 			}
 		}
 	}
@@ -342,4 +349,21 @@ func checkWireHeaders(k *Kernel, c *CallState, prop, pair string) *Violation {
 		}
 	}
 	return nil
+}
+
+func serviceDeclares(w *WorldDesc, rpcKey, header string) bool {
+	svc := strings.SplitN(rpcKey, "/", 2)[0]
+	for _, f := range w.Spec().Files {
+		for _, s := range f.Services {
+			if s.Name != svc {
+				continue
+			}
+			for _, h := range s.Headers {
+				if h.Name == header {
+					return true
+				}
+			}
+		}
+	}
+	return false
 }
